@@ -60,6 +60,32 @@ func checkC05(c *Ctx) {
 			}
 		})
 	}
+	// a direction started as "go p.method(x, y, ...)" whose body runs the pipe on its parameters
+	eachInstr(hc, func(_ *ssa.BasicBlock, _ int, in ssa.Instruction) {
+		g, ok := in.(*ssa.Go)
+		if !ok {
+			return
+		}
+		f := calleeFn(&g.Call)
+		if f == nil || f.Blocks == nil || f == pipe || !isModFn(f) || f.Parent() != nil {
+			return
+		}
+		eachInstr(f, func(_ *ssa.BasicBlock, _ int, x ssa.Instruction) {
+			cc := callOf(x)
+			if cc == nil || calleeFn(cc) != pipe {
+				return
+			}
+			arg := func(v ssa.Value) ssa.Value {
+				if prm, ok := stripConv(v).(*ssa.Parameter); ok {
+					if idx := paramIndex(f, prm); idx >= 0 && idx < len(g.Call.Args) {
+						return cellKey(g.Call.Args[idx])
+					}
+				}
+				return nil
+			}
+			calls = append(calls, pcall{in, arg(cc.Args[1]), arg(cc.Args[2]), true})
+		})
+	})
 	if len(calls) != 2 {
 		c.Fail("R1", "two relay directions", hc.Pos(), fmt.Sprintf("the handler starts %d relay directions, a TCP session needs exactly two", len(calls)))
 	} else {
@@ -391,6 +417,10 @@ func checkC05(c *Ctx) {
 	checkNoDiscardingSockopt(c, "R6")
 	c.Rule("R7", "every goroutine started in a loop (the accept loop) gets that iteration's values: no closure captures a variable declared outside the loop and assigned inside it")
 	checkLoopGoroutineCapture(c, "R7")
+	c.Rule("R9", "connection objects are not recycled: no value of a type implementing net.Conn is put into a sync.Pool (its other holders - the opposite direction, the deferred Close calls - would act on an unrelated session)")
+	checkNoPooledConn(c, "R9")
+	c.Rule("R8", "a session is bound to the host it is connected to (shared with C06.R1/R5): the host whose removal closes the session, and whose counters it changes, is the host every dial of the session goes to - otherwise removing another host cuts a healthy stream in the middle")
+	c.withAlias(map[string]string{"R1": "R8", "R5": "R8", "R2": "", "R3": "", "R4": "", "R6": "", "R7": "", "R8": "", "R9": "", "R10": "", "R11": "", "R12": ""}, func() { checkC06(c) })
 }
 
 // cellKey resolves a connection value through single-assignment local cells / captured variables by name.
@@ -487,7 +517,39 @@ func localLatchClosedByRelay(fn *ssa.Function, ch ssa.Value, pipe *ssa.Function)
 			return true
 		}
 	}
-	return false
+	// the relay runs in a method started with go, which is handed the channel and closes it after the pipe returned
+	res := false
+	eachInstr(fn, func(_ *ssa.BasicBlock, _ int, in ssa.Instruction) {
+		g, ok := in.(*ssa.Go)
+		if !ok {
+			return
+		}
+		f := calleeFn(&g.Call)
+		if f == nil || f.Blocks == nil || f == pipe {
+			return
+		}
+		for i, a := range g.Call.Args {
+			a = stripConv(a)
+			k := cellKey(a)
+			if !(a == ch || (k != nil && k == key) || a == key) || i >= len(f.Params) {
+				continue
+			}
+			prm := f.Params[i]
+			var pcall, cl ssa.Instruction
+			eachInstr(f, func(_ *ssa.BasicBlock, _ int, x ssa.Instruction) {
+				if isCallToFn(x, pipe) {
+					pcall = x
+				}
+				if isBuiltin(x, "close") && callOf(x).Args[0] == ssa.Value(prm) {
+					cl = x
+				}
+			})
+			if pcall != nil && cl != nil && instrDominates(pcall, cl) {
+				res = true
+			}
+		}
+	})
+	return res
 }
 
 // checkNoDiscardingSockopt (C05.R6): the relay counts a direction as delivered once Write has returned, i.e. once the
@@ -623,5 +685,56 @@ func checkLoopGoroutineCapture(c *Ctx, rule string) {
 	}
 	if n == 0 {
 		c.Note("no goroutine is started from a closure inside a loop")
+	}
+}
+
+// checkNoPooledConn (C05.R9): a connection wrapper is shared - both relay directions, the handler's deferred Close and
+// the listener hold the same pointer, and Close is called more than once by design (it is idempotent through a flag).
+// Recycling such an object through a sync.Pool hands it to a new session while an old holder can still call
+// CloseWrite/Close on it: the late call lands on an unrelated connection. No value of a type that implements
+// net.Conn may be put into a pool.
+func checkNoPooledConn(c *Ctx, rule string) {
+	p := c.P
+	var connIface *types.Interface
+	for _, pk := range p.SSA.AllPackages() {
+		if pk.Pkg.Path() == "net" {
+			if o := pk.Pkg.Scope().Lookup("Conn"); o != nil {
+				connIface, _ = o.Type().Underlying().(*types.Interface)
+			}
+		}
+	}
+	if connIface == nil {
+		c.Unresolved(rule, "net.Conn")
+		return
+	}
+	nput, nbad := 0, 0
+	for _, fn := range p.SrcFns {
+		if !isModFn(fn) || p.isTestFn(fn) {
+			continue
+		}
+		eachInstr(fn, func(_ *ssa.BasicBlock, _ int, in ssa.Instruction) {
+			call, ok := in.(ssa.CallInstruction)
+			if !ok {
+				return
+			}
+			cc := call.Common()
+			g := calleeFn(cc)
+			if g == nil || g.String() != "(*sync.Pool).Put" || len(cc.Args) != 2 {
+				return
+			}
+			nput++
+			v := cc.Args[1]
+			if mi, ok := v.(*ssa.MakeInterface); ok {
+				v = mi.X
+			}
+			t := v.Type()
+			if types.Implements(t, connIface) || types.Implements(types.NewPointer(t), connIface) {
+				nbad++
+				c.Fail(rule, fmt.Sprintf("%s pool put#%d is not a connection", fnKey(fn), nbad), in.Pos(), "a connection object ("+types.TypeString(t, nil)+") is recycled through a sync.Pool: other holders of the pointer (the opposite relay direction, the deferred Close of the handler and of the listener) can still call CloseWrite/Close on it after it was handed to a new session - an unrelated stream is cut short")
+			}
+		})
+	}
+	if nbad == 0 {
+		c.OK(rule, "no connection object is recycled through a pool", token.NoPos, fmt.Sprintf("%d sync.Pool.Put calls in the module examined, none puts a net.Conn implementation", nput))
 	}
 }
